@@ -57,7 +57,15 @@ func runWorker(c *common, run scenRunner, setup func() error) error {
 			return err
 		}
 		fmt.Fprintf(j, "B %d\n", ts.Tid)
-		if err := run(w, ts.Tid, ts.Scen, c); err != nil {
+		err := run(w, ts.Tid, ts.Scen, c)
+		for attempt := 0; err != nil && strings.HasPrefix(err.Error(), "precondition:") && attempt < 3; attempt++ {
+			// the scripted happy-path negotiation did not complete (loaded machine): the scenario has not
+			// started, run it again
+			w.Emit(tr.Rec{"ev": "note", "retry": err.Error()})
+			time.Sleep(200 * time.Millisecond)
+			err = run(w, ts.Tid, ts.Scen, c)
+		}
+		if err != nil {
 			w.Flush()
 			return fmt.Errorf("scenario %d: %w", ts.Tid, err)
 		}
